@@ -19,13 +19,14 @@ import (
 
 func TestMain(m *testing.M) {
 	gen.Quiet()
-	ev.MustHit("head-changed-branch", "shorter-heavier-wins", "longer-lighter-ignored", "side-before-main", "restart", "pruning-config", "batch>1")
+	ev.MustHit("head-changed-branch", "shorter-heavier-wins", "longer-lighter-ignored", "side-before-main", "restart", "pruning-config", "batch>1", "concurrent-entry-points")
 	ev.MustHitThorough("exact-tie", "deep>128")
 	ev.Main(m, ev.Config{
 		Property: "C02",
 		Level:    "exploration",
 		Rule: "rapid-generated block trees (<=4/8 branches, per-branch block pace drawn from {1..3000}s so that shorter-but-heavier and longer-but-lighter branches occur; configurations steep/nofork/test/all-at-0) " +
 			"delivered in a generated parent-closed order cut into linked batches, on archive and pruning nodes, with generated restarts; after every InsertChain the TD table, the head's maximality, TD monotonicity and CurrentHeader are judged against a big-integer model. " +
+			"A further leg delivers two sibling blocks of different weight concurrently through the node's two import paths (InsertChain for a peer's block, WriteBlockWithState for the miner's own), 20-40 heights per case: the head must end on the heavier one under every interleaving. " +
 			"non-trivial = a history in which the head moved to a different branch at least once; distinct by hash of tree shape+difficulties+delivery order",
 		Assumptions: []string{
 			"fake-PoW engine (aquahash.NewFaker): every header rule is enforced, only the seal is skipped",
